@@ -134,6 +134,8 @@ def build_modelx():
     assert 'module M = Model\n' in src and 'let ls_hook : (M.state -> bool * bool * bool list) option = None' in src
     src = src.replace('module M = Model\n', 'module M = Modelx\n').replace(
         'let ls_hook : (M.state -> bool * bool * bool list) option = None', 'let ls_hook : (M.state -> bool * bool * bool list) option = Some (fun s -> (M.ls_ok_x s, M.ls4_ok_x s, M.ls_flags_x s))')
+    assert 'let cert_hook : (M.n list -> bool * bool list) option = None' in src
+    src = src.replace('let cert_hook : (M.n list -> bool * bool list) option = None', 'let cert_hook : (M.n list -> bool * bool list) option = Some (fun f -> (M.cert_ok_x f, M.cert_flags_x f))')
     open(os.path.join(outdir, 'model_main.ml'), 'w').write(src)
     r = sh(['ocamlfind', 'ocamlopt', '-package', 'zarith', '-linkpkg', '-w', '-a', '-O3', 'modelx.mli', 'modelx.ml', 'model_main.ml', '-o', 'model_main'], cwd=outdir)
     if r.returncode != 0:
